@@ -8,6 +8,8 @@ const SSE42: u8 = 2;
 const NOP: u8 = 3;
 
 fn detect_runtime_feature() -> u8 {
+    #[cfg(httparse_verif)]
+    crate::_verif::DETECTS.fetch_add(1, std::sync::atomic::Ordering::Relaxed);
     if is_x86_feature_detected!("avx2") {
         AVX2
     } else if is_x86_feature_detected!("sse4.2") {
@@ -18,6 +20,20 @@ fn detect_runtime_feature() -> u8 {
 }
 
 static RUNTIME_FEATURE: AtomicU8 = AtomicU8::new(0);
+
+/// Verification hook: force the cached backend id (0 = not yet detected,
+/// 1 = AVX2, 2 = SSE4.2, 3 = scalar). The caller must only force a backend
+/// the CPU supports.
+#[cfg(httparse_verif)]
+pub fn verif_set_runtime_feature(feature: u8) {
+    RUNTIME_FEATURE.store(feature, Ordering::Relaxed);
+}
+
+/// Verification hook: read the cached backend id.
+#[cfg(httparse_verif)]
+pub fn verif_get_runtime_feature() -> u8 {
+    RUNTIME_FEATURE.load(Ordering::Relaxed)
+}
 
 #[inline]
 fn get_runtime_feature() -> u8 {
